@@ -354,9 +354,15 @@ func (w *World) hsMaterialise(disk []HEntry) {
 			must(os.Symlink(filepath.Join(root, "nowhere", "gone"), full))
 		default:
 			writeFile(full, e.Content)
+			// every file carries the same modification time, as after `cp -p`, `touch -r`, a checkout that
+			// restores timestamps or on a file system with a coarse clock: (path, size, mtime) does not
+			// identify content
+			must(os.Chtimes(full, hsEpoch, hsEpoch))
 		}
 	}
 }
+
+var hsEpoch = time.Date(2001, 2, 3, 4, 5, 6, 0, time.UTC)
 
 func (w *World) hsAbs(list []string) []string {
 	out := make([]string, len(list))
